@@ -163,6 +163,30 @@ impl<T: CoordNum> AffineTransform<T> {
 //@end
 }
 
+// vstd attaches `obeys_from_spec() ==> r == from_spec(x)` to every `From::from`; not used here (see c18_geo_types)
+impl<T: CoordNum> vstd::std_specs::convert::FromSpecImpl<[T; 6]> for AffineTransform<T> {
+    open spec fn obeys_from_spec() -> bool { false }
+    uninterp spec fn from_spec(v: [T; 6]) -> Self;
+}
+impl<T: CoordNum> From<[T; 6]> for AffineTransform<T> {
+//@fn geo/src/algorithm/affine_ops.rs | impl<T: CoordNum> From<[T; 6]> for AffineTransform<T> | from | id=C13.V.from_array
+//@ret r
+//@spec
+    ensures wf(r), mview(r) == (M { a: arr@[0].val(), b: arr@[1].val(), xoff: arr@[2].val(), d: arr@[3].val(), e: arr@[4].val(), yoff: arr@[5].val() }),
+//@end
+}
+impl<T: CoordNum> vstd::std_specs::convert::FromSpecImpl<(T, T, T, T, T, T)> for AffineTransform<T> {
+    open spec fn obeys_from_spec() -> bool { false }
+    uninterp spec fn from_spec(v: (T, T, T, T, T, T)) -> Self;
+}
+impl<T: CoordNum> From<(T, T, T, T, T, T)> for AffineTransform<T> {
+//@fn geo/src/algorithm/affine_ops.rs | impl<T: CoordNum> From<(T, T, T, T, T, T)> for AffineTransform<T> | from | id=C13.V.from_tuple
+//@ret r
+//@spec
+    ensures wf(r), mview(r) == (M { a: tup.0.val(), b: tup.1.val(), xoff: tup.2.val(), d: tup.3.val(), e: tup.4.val(), yoff: tup.5.val() }),
+//@end
+}
+
 impl<U: CoordFloat> AffineTransform<U> {
 //@fn geo/src/algorithm/affine_ops.rs | impl<U: CoordFloat> AffineTransform<U> | rotate | id=C13.V.rotate
 //@ret r
